@@ -50,8 +50,9 @@ ASSUMPTIONS = [
     "selection: every returned value must match a distinct reference eigenvalue, and no reference eigenvalue that "
     "was not returned may be closer to sigma than the farthest returned one (beyond the eigenvalue tolerance, so ties at "
     "the cut are admissible either way). Not counted as a violation but counted separately: a further copy of a "
-    "numerically multiple eigenvalue (e.g. the bc-diagonal value of a constrained stiffness matrix) of which at least "
-    "one copy was returned - a single-vector Krylov method sees one vector per eigenspace in exact arithmetic",
+    "numerically multiple eigenvalue (gap <= 1e-8 |lam - sigma|; e.g. the bc-diagonal value of a constrained stiffness "
+    "matrix, double modes of a symmetric structure) of which at least one copy was returned - a single-vector Krylov "
+    "method sees one vector per eigenspace in exact arithmetic",
 ]
 FLOORS = {"quick": {"cases_held": 2800, "distinct_nontrivial": 2000, "responses_judged": 5500, "repeat_calls_judged": 2800,
                     "pairs_residual_checked": 40000, "pairs_normalisation_checked": 40000, "eigenvalues_compared": 40000,
@@ -224,12 +225,15 @@ def _judge_step(ctx, pym, state, mats, info, step):
     A, B = mats[0], (mats[1] if len(mats) > 1 else None)
     snap = [M.copy() for M in mats]
     W, Q = _respond(pym, mod, sigs, mats, rec)
-    jk = dict(sparse=info["sparse"], hermitian=info["hermitian"], realsym=info["realsym"],
+    jk = dict(sparse=info["sparse"], realsym=info["realsym"],
               lam_ref=info["lam"], cond_ref=info["cond"], nBinv=info["nBinv"],
               nmodes=info.get("nmodes"), sigma=info.get("sigma", 0.0))
     fails, obs = ref.judge(A, B, W, Q, sorter=(state["sort"], keyfn), rec=(rec.calls if rec is not None else None),
                            count=ctx.count, **jk)
     ctx.count("responses_judged")
+    ctx.log(f"step {step}: n={A.shape[0]} B={'-' if B is None else type(B).__name__} sparse={info['sparse']} "
+            f"returned {np.shape(W)} {getattr(W, 'dtype', None)}; lambda[:6]={np.asarray(W)[:6]}; sigma={info.get('sigma')}; "
+            f"obs={obs}; failed clauses={[m_ for m_, _ in fails]}")
     if step > 0:
         ctx.count("repeat_calls_judged")
     # the judged inputs must still be what was handed in (otherwise the residual above is about other matrices)
